@@ -29,6 +29,8 @@ def run(ctx):
         runs.monitor_batch(ctx, PID, ctx.size(250, 3000), force=FORCE),
         engine.slice_engine(ctx, ctx.rng(81), ctx.size(250, 3000), only="C03/"),
         engine.slice_sea(ctx, ctx.rng(83), ctx.size(400, 5000), only="C03/"),
+        # an objective with NaN holes (NaN is a legal value, ordered as worst): the property does not depend on it
+        runs.nan_monitor_batch(ctx, PID, ctx.size(30, 300), salt=57),
     ]
 
 
